@@ -107,6 +107,29 @@ func singlePerturbations(m *ophosttypes.MsgFinalizeTokenWithdrawal, cx c03Ctx) [
 		perturbation{"proof.extended.random", func(m *ophosttypes.MsgFinalizeTokenWithdrawal) {
 			m.WithdrawalProofs = append(m.WithdrawalProofs, bytes.Repeat([]byte{0x5a}, 32))
 		}},
+		// distinguished node values an implementation might treat as padding / "empty": all-zero, all-ones, the leaf itself
+		perturbation{"proof.extended.zero_node", func(m *ophosttypes.MsgFinalizeTokenWithdrawal) {
+			m.WithdrawalProofs = append(m.WithdrawalProofs, make([]byte, 32))
+		}},
+		perturbation{"proof.prepended.zero_node", func(m *ophosttypes.MsgFinalizeTokenWithdrawal) {
+			m.WithdrawalProofs = append([][]byte{make([]byte, 32)}, m.WithdrawalProofs...)
+		}},
+		perturbation{"proof.zero_nodes_interleaved", func(m *ophosttypes.MsgFinalizeTokenWithdrawal) {
+			var out [][]byte
+			for _, p := range m.WithdrawalProofs {
+				out = append(out, make([]byte, 32), p)
+			}
+			m.WithdrawalProofs = append(out, make([]byte, 32))
+		}},
+		perturbation{"proof.extended.ones_node", func(m *ophosttypes.MsgFinalizeTokenWithdrawal) {
+			m.WithdrawalProofs = append(m.WithdrawalProofs, bytes.Repeat([]byte{0xff}, 32))
+		}},
+		perturbation{"proof.extended.own_leaf", func(m *ophosttypes.MsgFinalizeTokenWithdrawal) {
+			if m.Amount.Amount.IsUint64() {
+				l := ref.Leaf(m.BridgeId, m.Sequence, m.From, m.To, m.Amount.Denom, m.Amount.Amount.Uint64())
+				m.WithdrawalProofs = append(m.WithdrawalProofs, l[:])
+			}
+		}},
 		perturbation{"proof.other_leaf", func(m *ophosttypes.MsgFinalizeTokenWithdrawal) {
 			m.WithdrawalProofs = nil
 			for _, p := range cx.otherProof {
